@@ -38,6 +38,20 @@ def run_family(R, tier, rng, kinds):
             if "get" in kinds:
                 for i in range(-n, n):
                     cases.append(("rle_get " + show(a) + " " + str(i), [safe(lambda: int(r[i])), int(A[i])], "get", nt(a)))
+    if "get" in kinds:
+        # windows and run-length masks: the model (Model/RLEOps.v rl_windows / rl_getitem_rlmask) against the implementation and the dense array
+        for a in arrs:
+            if len(a) > 5 and rng.random() < .8: continue
+            A = np.array(a); n = len(a)
+            k = rng.randint(1, 3); ss = [rng.randrange(0, n) for _ in range(k)]; ee = [rng.randint(s + 1, n) for s in ss]
+            def win(): return RunLengthArray.from_array(A)[np.array(ss):np.array(ee)].to_array().tolist()
+            cases.append(("rle_windows " + show(a) + " " + show(ss) + " " + show(ee), [guarded(win), [a[s:e] for s, e in zip(ss, ee)]], "windows", nt(a)))
+            m = [rng.random() < .5 for _ in a]
+            if any(m):
+                def rlm():
+                    out = RunLengthArray.from_array(A)[RunLengthArray.from_array(np.array(m))]
+                    return np.asarray(out.to_array() if hasattr(out, "to_array") else out).tolist()
+                cases.append(("rle_rlmask " + show(a) + " " + show([int(b) for b in m]), [guarded(rlm), [x for x, b in zip(a, m) if b]], "rlmask", nt(a)))
     if "bin" in kinds:
         pairs = [(a, b) for a in arrs for b in arrs if len(a) == len(b)]; rng.shuffle(pairs)
         for a, b in pairs[:20000 if tier == "thorough" else 4000]:
@@ -57,6 +71,8 @@ def run_family(R, tier, rng, kinds):
             R.record(line, iobs, "oracle-error: " + o[:80], "oracle-error: " + o[:80], ntc, kind); continue
         m, s = parse(o)
         if kind == "rt": s = s[0]
+        if kind in ("windows", "rlmask"):
+            R.record(line, iobs, m, dense, ntc, kind); continue
         if kind in ("sum", "get"):
             R.record(line, iobs, m, dense if s is None else s, ntc, kind); continue
         R.record(line + " #dense", None if iobs is None else iobs[2], None if m is None else m[2], s, ntc, kind + "/dense")
